@@ -124,19 +124,29 @@ fn handles(m: Mk, what: &str, empty: bool) -> bool {
     }
 }
 
-/// call every value method of `m` once; returns (method, fired, applicable)
+/// call one value method of `m`; returns (method, fired, applicable). `which` selects the method and
+/// the value (ordinary values and the ends of every range, where wrap-around / saturation happen)
 fn call_all(m: &dyn Mutator, mk: Mk, src: &mut GenerationSource, rate: f64, which: usize) -> (&'static str, bool, bool) {
+    const INTS: [i32; 5] = [12345, i32::MAX, i32::MIN, 0, -1];
+    const LONGS: [i64; 5] = [-9_876_543_210, i64::MAX, i64::MIN, 0, -1];
+    const FLOATS: [f64; 4] = [2.5, f64::MAX, f64::NAN, f64::NEG_INFINITY];
+    const MEMOS: [usize; 4] = [7, 0, usize::MAX, 255];
     match which {
-        0 => ("int", m.mutate_int(12345, src, rate).is_some(), handles(mk, "int", false)),
-        1 => ("long", m.mutate_long(-9_876_543_210, src, rate).is_some(), handles(mk, "long", false)),
-        2 => ("float", m.mutate_float(2.5, src, rate).is_some(), handles(mk, "float", false)),
-        3 => ("string", m.mutate_string("hello wörld".to_string(), src, rate).is_some(), handles(mk, "string", false)),
-        4 => ("string_empty", m.mutate_string(String::new(), src, rate).is_some(), handles(mk, "string", true)),
-        5 => ("bytes", m.mutate_bytes(vec![1, 2, 3, 250], src, rate).is_some(), handles(mk, "bytes", false)),
-        6 => ("bytes_empty", m.mutate_bytes(vec![], src, rate).is_some(), handles(mk, "bytes", true)),
-        _ => ("memo", m.mutate_memo_index(7, src, rate).is_some(), handles(mk, "memo", false)),
+        0..=4 => ("int", m.mutate_int(INTS[which], src, rate).is_some(), handles(mk, "int", false)),
+        5..=9 => ("long", m.mutate_long(LONGS[which - 5], src, rate).is_some(), handles(mk, "long", false)),
+        10..=13 => ("float", m.mutate_float(FLOATS[which - 10], src, rate).is_some(), handles(mk, "float", false)),
+        14 => ("string", m.mutate_string("hello wörld".to_string(), src, rate).is_some(), handles(mk, "string", false)),
+        15 => ("string_empty", m.mutate_string(String::new(), src, rate).is_some(), handles(mk, "string", true)),
+        16 => ("string", m.mutate_string("x".to_string(), src, rate).is_some(), handles(mk, "string", false)),
+        17 => ("bytes", m.mutate_bytes(vec![1, 2, 3, 250], src, rate).is_some(), handles(mk, "bytes", false)),
+        18 => ("bytes_empty", m.mutate_bytes(vec![], src, rate).is_some(), handles(mk, "bytes", true)),
+        19 => ("bytes", m.mutate_bytes(vec![0], src, rate).is_some(), handles(mk, "bytes", false)),
+        _ => ("memo", m.mutate_memo_index(MEMOS[(which - 20) % 4], src, rate).is_some(), handles(mk, "memo", false)),
     }
 }
+
+/// number of `which` values understood by `call_all`
+const N_CALLS: usize = 24;
 
 pub fn c15_direct(thorough: bool, seed: u64, acc: &mut Acc) {
     let mut rng = Rng::new(seed ^ 0xD15EC7);
@@ -144,7 +154,7 @@ pub fn c15_direct(thorough: bool, seed: u64, acc: &mut Acc) {
     for unsafe_mode in [false, true] {
         for (mk, m) in mutator_objs(unsafe_mode) {
             for e in &ents {
-                for which in 0..8 {
+                for which in 0..N_CALLS {
                     for rate in [0.0f64, 1.0f64] {
                         acc.evaluations += 1;
                         let r = with_source(e, |src| call_all(m.as_ref(), mk, src, rate, which));
@@ -591,7 +601,7 @@ pub fn c16(thorough: bool, seed: u64) -> CheckOutput {
                 }
                 // default trait methods of mutators that do not handle a kind must not fire
                 for (mk, m) in mutator_objs(false) {
-                    for which in 0..8 {
+                    for which in 0..N_CALLS {
                         if let Ok((method, fired, applicable)) = with_source(e, |s| call_all(m.as_ref(), mk, s, rate, which)) {
                             acc.evaluations += 1;
                             if fired && !applicable {
